@@ -2,7 +2,7 @@
    Model: Model/Sched.v (Doist/Doer/DoDoer of src/hio/base/doing.py as a fuelled
    interpreter over doer programs).  Proofs: Proofs/SchedFrame.v, SchedLife.v, SchedTop.v. *)
 From Hio Require Import Base.Prelude Base.AMap Base.Time Model.Sched Proofs.SchedLife Proofs.SchedTop
-  Proofs.SchedDequeHold Proofs.SchedDequeTop.
+  Proofs.SchedDequeHold Proofs.SchedDequeTop Proofs.SchedHist Model.SchedCase Proofs.SchedHistCase.
 
 (* For every time type, every program (any forest of leaf doers of the three
    kinds and DoDoers, any scripts of yields / returns / raises / KeyboardInterrupts,
@@ -18,6 +18,23 @@ Theorem C01_lifecycles :
     life_ok (get_gen (do_run cycles fuel p) j) (events j (do_run cycles fuel p)).
 Proof. intros. apply do_run_lifecycles. Qed.
 Print Assumptions C01_lifecycles.
+
+(* The same for every HISTORY of runs of the same doer objects: a first do() or ado(), then any number
+   of further runs on the same Doist (with or without a new limit / tyme) or under new Doists (their own
+   limit, tyme and doer list).  Lifecycles never straddle runs wrongly: the events of every doer over the
+   whole history are complete lifecycles, plus one in progress exactly when its generator is alive. *)
+Theorem C01_lifecycles_histories :
+  forall (T : Type) (TT : Time T) (cycles fuel : nat) (asyn : bool) (p : prog T) (h : list rerun) (j : id),
+    life_ok (get_gen (run_hist cycles fuel asyn p h) j) (events j (run_hist cycles fuel asyn p h)).
+Proof. intros. apply run_hist_lifecycles. Qed.
+Print Assumptions C01_lifecycles_histories.
+
+(* ... and the state the correspondence check evaluates and compares with the implementation is such a
+   history (binary64 time), so the theorem covers every compared run. *)
+Theorem C01_correspondence_runs_are_histories :
+  forall c : case, run_case c = run_hist cycles_budget fuel_budget (c_async c) (c_prog c) (case_hist c).
+Proof. exact run_case_hist. Qed.
+Print Assumptions C01_correspondence_runs_are_histories.
 
 (* The same invariant holds after every single scheduler operation, from any
    state satisfying it (not only at the end of a run): one-step form for the
